@@ -156,6 +156,18 @@ Theorem C15_observe_once :
 Proof. exact observe_once. Qed.
 Print Assumptions C15_observe_once.
 
+(* in every history that adds only objects that are not members yet and assigns member lists without
+   repeats, the members stay pairwise distinct -- so observing such a group observes every member
+   exactly once (the third clause of C15_observe_once applies to every reachable state) *)
+Theorem C15_observe_each_member_exactly_once_in_histories :
+  forall c e ops, hist_fresh c e [] ops = true ->
+  let g := exec c e [] ops in
+  NoDup (map mid g)
+  /\ snd (step c e g OObserve) = RObs (map mid g)
+  /\ forall m, In m g -> count_occ Z.eq_dec (map mid g) (mid m) = 1%nat.
+Proof. exact observe_once_in_histories. Qed.
+Print Assumptions C15_observe_each_member_exactly_once_in_histories.
+
 (* record of a finding: the faithful model of BolometerCamera.__getitem__ (int or str keys only)
    answers every slice with TypeError, so "retrievable by slice" fails for that class *)
 Theorem C15_bolometer_slice_refuted :
